@@ -6,6 +6,9 @@ import RelicVerif.Spec.Mac
 import RelicVerif.Spec.Aes
 import RelicVerif.Model.Md
 import RelicVerif.Model.Bc
+import RelicVerif.Model.ShaStream
+import RelicVerif.Model.Blake2s
+import RelicVerif.Model.Rijndael
 
 namespace Driver.C14
 open Driver Driver.C15 Relic.Spec Relic.Model
@@ -20,9 +23,9 @@ def optBytes : Option (List UInt8) → String
 def streamOf (alg : String) : Option Md.Stream :=
   match alg with
   | "sh256" => some Md.sha256Stream
-  | "sh224" => some { run := fun cs => some (Sha256.sha224 cs.flatten), outLen := 28, blockLen := 64 }
-  | "sh384" => some { run := fun cs => some (Sha512.sha384 cs.flatten), outLen := 48, blockLen := 128 }
-  | "sh512" => some { run := fun cs => some (Sha512.sha512 cs.flatten), outLen := 64, blockLen := 128 }
+  | "sh224" => some Md.sha224Stream
+  | "sh384" => some Md.sha384Stream
+  | "sh512" => some Md.sha512Stream
   | _ => none
 
 def hashOf (alg : String) : Option Mac.Hash :=
@@ -35,17 +38,144 @@ def hashOf (alg : String) : Option Mac.Hash :=
   | "b2s256" => some { h := Blake2s.blake2s 32, outLen := 32, blockLen := 64 }
   | _ => none
 
-def aesE (key : List UInt8) : List UInt8 → List UInt8 := Aes.cipher (Aes.keyExpansion key)
-def aesD (key : List UInt8) : List UInt8 → List UInt8 := Aes.invCipher (Aes.keyExpansion key)
+open Relic.Model.Bc (aesE aesD)
+
+/-- tokens of md_stream / b2s_stream: a chunk, or `=` = a Result / final call in between -/
+def parseToks : List String → Option (List (Option (List UInt8)))
+  | [] => some []
+  | t :: ts => do
+    let r ← parseToks ts
+    if t == "=" then some (none :: r) else do
+      let b ← parseBytes t
+      some (some b :: r)
+
+def shaToksFrom {W : Type} (P : ShaStream.Params W) (c0 : ShaStream.Ctx W) (toks : List (Option (List UInt8))) : Option (List UInt8) :=
+  ShaStream.result P (toks.foldl (fun c t =>
+    match t with
+    | none => ShaStream.finish P c
+    | some b => ShaStream.input P c b) c0)
+
+def shaToks {W : Type} (P : ShaStream.Params W) (toks : List (Option (List UInt8))) : Option (List UInt8) :=
+  shaToksFrom P (ShaStream.reset P) toks
+
+/-- the context after Reset with the bit counter preset (harness op md_stream_len) -/
+def shaPreset {W : Type} (P : ShaStream.Params W) (bits : Nat) (toks : List (Option (List UInt8))) : Option (List UInt8) :=
+  shaToksFrom P { ShaStream.reset P with lenBits := bits % 2 ^ (8 * P.lenBytes) } toks
+
+/-- branch labels of the streaming SHA model for a token list (block size bs, length field lb) -/
+def shaTags (bs lb : Nat) (toks : List (Option (List UInt8))) : List String :=
+  let chunks := toks.filterMap id
+  let n := chunks.flatten.length
+  let fin := toks.any Option.isNone
+  [if n % bs ≥ bs - lb then "sha-pad-extra-block" else "sha-pad-same-block",
+   if n % bs = 0 then "sha-len-multiple-of-block" else "sha-len-partial-block",
+   if chunks.length > 1 then "sha-multi-chunk" else "sha-single-chunk"] ++
+  (if chunks.any List.isEmpty then ["sha-empty-chunk"] else []) ++
+  (if chunks.any (fun c => c.length > bs) then ["sha-chunk-longer-than-block"] else []) ++
+  (if fin then ["sha-result-then-more-calls"] else [])
+
+def b2sToks (S : Blake2s.State) (toks : List (Option (List UInt8))) (outlen : Nat) : Option (List UInt8) :=
+  Blake2s.final (toks.foldl (fun S t =>
+    match t with
+    | none => (match Blake2s.final S outlen with | some _ => Blake2s.finalState S | none => S)
+    | some b => Blake2s.update S b) S) outlen
+
+def b2sTags (kl : Nat) (toks : List (Option (List UInt8))) : List String :=
+  let chunks := toks.filterMap id
+  let n := chunks.flatten.length + (if kl > 0 then 64 else 0)
+  [if n = 0 then "b2s-empty" else if n % 64 = 0 then "b2s-last-block-full" else "b2s-last-block-partial",
+   if kl > 0 then "b2s-keyed" else "b2s-unkeyed",
+   if chunks.length > 1 then "b2s-multi-chunk" else "b2s-single-chunk"] ++
+  (if chunks.any (fun c => c.length > 128) then ["b2s-direct-blocks-from-input"] else []) ++
+  (if chunks.any List.isEmpty then ["b2s-empty-chunk"] else []) ++
+  (if toks.any Option.isNone then ["b2s-final-then-more-calls"] else [])
 
 def handle (op : String) (args : List String) : Option Verdict :=
   match op, args with
   | "md_map", [alg, m] => do
     let b ← parseBytes m
     let H ← hashOf alg
-    -- model: sha256 goes through the streaming model; the others are one-shot
-    let mdl := if alg == "sh256" then optBytes (Sha256.mdMap b) else fmtBytes (H.h b)
-    some { model := mdl, spec := [fmtBytes (H.h b)] }
+    -- model: every SHA goes through the streaming model of its C file (one Input call), BLAKE2s through the model of blake2s()
+    let mdl :=
+      match alg with
+      | "sh256" => optBytes (Sha256.mdMap b)
+      | "sh224" => optBytes (ShaStream.run ShaStream.sha224P [b])
+      | "sh384" => optBytes (ShaStream.run ShaStream.sha384P [b])
+      | "sh512" => optBytes (ShaStream.run ShaStream.sha512P [b])
+      | "b2s160" => optBytes (Blake2s.blake2s 20 b [])
+      | "b2s256" => optBytes (Blake2s.blake2s 32 b [])
+      | _ => "unknown-alg"
+    let tags := if alg.startsWith "sh" then shaTags H.blockLen (H.blockLen / 8) [some b] else b2sTags 0 [some b]
+    some { model := mdl, spec := [fmtBytes (H.h b)], tags := tags }
+  | "md_stream", alg :: toks => do
+    let ts ← parseToks toks
+    let H ← hashOf alg
+    let mdl ←
+      match alg with
+      | "sh256" => some (optBytes (shaToks ShaStream.sha256P ts))
+      | "sh224" => some (optBytes (shaToks ShaStream.sha224P ts))
+      | "sh384" => some (optBytes (shaToks ShaStream.sha384P ts))
+      | "sh512" => some (optBytes (shaToks ShaStream.sha512P ts))
+      | _ => none
+    -- spec: the digest of everything fed; feeding data after a Result call is an error of the API
+    let afterFin := (ts.dropWhile Option.isSome).filterMap id
+    let spec := if afterFin.any (fun c => !c.isEmpty) then "err" else fmtBytes (H.h (ts.filterMap id).flatten)
+    some { model := mdl, spec := [spec], tags := shaTags H.blockLen (H.blockLen / 8) ts }
+  | "md_stream_len", alg :: bits :: toks => do
+    let bits ← parseHexNat bits
+    let cs ← toks.mapM parseBytes
+    let ts := cs.map some
+    let mdl ←
+      match alg with
+      | "sh256" => some (optBytes (shaPreset ShaStream.sha256P bits ts))
+      | "sh224" => some (optBytes (shaPreset ShaStream.sha224P bits ts))
+      | "sh384" => some (optBytes (shaPreset ShaStream.sha384P bits ts))
+      | "sh512" => some (optBytes (shaPreset ShaStream.sha512P bits ts))
+      | _ => none
+    -- spec: FIPS 180-4 admits every message below 2^64 resp. 2^128 bits, so from a preset counter the only admissible refusal
+    -- is a true wrap of the counter; otherwise the digest (Merkle–Damgård continued with that counter value = the model with the
+    -- ideal wrap test)
+    let ideal ←
+      match alg with
+      | "sh256" => some (optBytes (shaPreset { ShaStream.sha256P with corruptAfterAdd := fun l => l < 8 } bits ts))
+      | "sh224" => some (optBytes (shaPreset { ShaStream.sha224P with corruptAfterAdd := fun l => l < 8 } bits ts))
+      | "sh384" => some (optBytes (shaPreset { ShaStream.sha384P with corruptAfterAdd := fun l => l < 8 } bits ts))
+      | "sh512" => some (optBytes (shaPreset { ShaStream.sha512P with corruptAfterAdd := fun l => l < 8 } bits ts))
+      | _ => none
+    some { model := mdl, spec := [ideal], tags := [if mdl == "err" then "sha-counter-test-fires" else "sha-counter-preset-ok"] }
+  | "b2s_stream", ol :: k :: toks => do
+    let ol ← ol.toNat?
+    let k ← parseBytes k
+    let ts ← parseToks toks
+    let S := if k.length > 0 then Blake2s.initKey ol k else Blake2s.init ol
+    let mdl := match S with
+      | none => "err"
+      | some S => optBytes (b2sToks S ts ol)
+    -- spec: RFC 7693 for 1 ≤ nn ≤ 32, kk ≤ 32; any call after final is an error of the API
+    let ok := 1 ≤ ol ∧ ol ≤ 32 ∧ k.length ≤ 32 ∧ ¬ ts.any Option.isNone
+    some { model := mdl, spec := [if ok then fmtBytes (Blake2s.blake2sK ol k (ts.filterMap id).flatten) else "err"],
+           tags := b2sTags k.length ts }
+  | "b2s_ctr", ol :: t0 :: t1 :: toks => do
+    let ol ← ol.toNat?
+    let t0 ← parseHexNat t0
+    let t1 ← parseHexNat t1
+    let cs ← toks.mapM parseBytes
+    let S ← Blake2s.init ol
+    let S := { S with t0 := UInt32.ofNat t0, t1 := UInt32.ofNat t1 }
+    let m := cs.flatten
+    -- spec: the processing loop of RFC 7693 §3.3 continued from the byte counter t = t0 + 2^32·t1
+    let T := t0 % 2 ^ 32 + 2 ^ 32 * (t1 % 2 ^ 32)
+    let carry := (t0 % 2 ^ 32 + m.length ≥ 2 ^ 32)
+    some { model := optBytes (Blake2s.final (cs.foldl Blake2s.update S) ol),
+           spec := [fmtBytes (Blake2s.outBytes (Blake2s.loop (Blake2s.initH 0 ol) T (m.length / 64 + 2) m) ol)],
+           tags := [if carry then "b2s-counter-carry" else "b2s-counter-no-carry"] }
+  | "b2s", [ol, k, m] => do
+    let ol ← ol.toNat?
+    let k ← parseBytes k
+    let m ← parseBytes m
+    let ok := 1 ≤ ol ∧ ol ≤ 32 ∧ k.length ≤ 32
+    some { model := optBytes (Blake2s.blake2s ol m k),
+           spec := [if ok then fmtBytes (Blake2s.blake2sK ol k m) else "err"], tags := b2sTags k.length [some m] }
   | "md_hmac", [k, m] => do
     let k ← parseBytes k
     let m ← parseBytes m
@@ -72,16 +202,23 @@ def handle (op : String) (args : List String) : Option Verdict :=
     let p ← parseBytes p
     -- spec: FIPS 197 + SP 800-38A + PKCS#7 whenever key size is valid and the buffer is large enough
     let ok := (k.length = 16 ∨ k.length = 24 ∨ k.length = 32) ∧ cap ≥ p.length + (16 - p.length % 16)
-    some { model := optBytes (Bc.bcAesCbcEnc aesE cap p k iv),
-           spec := [if ok then fmtBytes (Aes.aesCbcPkcs7Enc k iv p) else "err"] }
+    -- model: padEncrypt around the table-driven rijndaelKeySetupEnc / rijndaelEncrypt (tables extracted from the C text);
+    -- spec: FIPS 197 cipher under SP 800-38A CBC and PKCS#7
+    let nblk := p.length / 16 + 1
+    some { model := optBytes (Bc.bcAesCbcEnc Rijndael.aesE cap p k iv),
+           spec := [if ok then fmtBytes (Aes.aesCbcPkcs7Enc k iv p) else "err"],
+           tags := ["aes-enc-key" ++ toString (8 * k.length), if p.length % 16 = 0 then "aes-enc-full-pad-block" else "aes-enc-partial-pad",
+                    if nblk = 1 then "aes-enc-one-block" else "aes-enc-multi-block"] }
   | "aes_dec", [cap, k, iv, c] => do
     let cap ← cap.toNat?
     let k ← parseBytes k
     let iv ← parseBytes iv
     let c ← parseBytes c
     let ok := (k.length = 16 ∨ k.length = 24 ∨ k.length = 32) ∧ cap ≥ c.length
-    some { model := optBytes (Bc.bcAesCbcDec aesD cap c k iv),
-           spec := [if ok then optBytes (Aes.aesCbcPkcs7Dec k iv c) else "err"] }
+    let sp := if ok then optBytes (Aes.aesCbcPkcs7Dec k iv c) else "err"
+    some { model := optBytes (Bc.bcAesCbcDec Rijndael.aesD cap c k iv),
+           spec := [sp],
+           tags := ["aes-dec-key" ++ toString (8 * k.length), if sp == "err" then "aes-dec-rejected" else "aes-dec-accepted"] }
   | _, _ => none
 
 end Driver.C14
